@@ -571,7 +571,15 @@ func codecPrograms(ctx *core.Ctx) []*dsl.Program {
 // well-formed programs: C01-C03 and C07 see them too (a key at the maximum of its type, a checksum inside an
 // inline object ... are wire layout like anything else).
 func targetedFamilies() []*dsl.Program {
-	return append(append(lengthPrograms(), matchPrograms()...), checksumPrograms()...)
+	out := append(append(lengthPrograms(), matchPrograms()...), checksumPrograms()...)
+	// fixed strings of every length 1..20 (anything that derives a sample or a buffer from the length meets each)
+	var fs []*dsl.Field
+	for n := 1; n <= 20; n++ {
+		fs = append(fs, dsl.Fx(n, fmt.Sprintf("F%d", n), nil))
+	}
+	p := &dsl.Program{Name: "F/char-lengths-1-20", Packets: []*dsl.Packet{dsl.Root("Msg", fs...)}}
+	p.Opts = dsl.TargetOpts("gfcharlengths")
+	return append(out, p)
 }
 
 // relevantPoints prunes option points for a single-kind program to those its wire form can depend on
